@@ -267,8 +267,9 @@ func (w *simWorld) faultReply(req *http.Request, rec *recorded, f *fault, _ stri
 // ---------------------------------------------------------------- the gateway under test
 type permPlugin struct {
 	bramble.BasePlugin
-	perms map[string]bramble.OperationPermissions // X-Perm header value -> permissions
-	block func(ctx context.Context)
+	perms  map[string]bramble.OperationPermissions // X-Perm header value -> permissions
+	block  func(ctx context.Context)
+	blockQ func(ctx context.Context, rawQuery string)
 }
 
 func (p *permPlugin) ID() string { return "verif-perm" }
@@ -293,6 +294,9 @@ func (p *permPlugin) ApplyMiddlewarePublicMux(h http.Handler) http.Handler {
 func (p *permPlugin) InterceptRequest(ctx context.Context, operationName, rawQuery string, variables map[string]interface{}) {
 	if p.block != nil {
 		p.block(ctx)
+	}
+	if p.blockQ != nil {
+		p.blockQ(ctx, rawQuery)
 	}
 }
 
